@@ -14,11 +14,12 @@ open JP JP.Async
 
 /-- **Translated**: every `*_async` method of selectors.py / path.py / filter.py / env.py is, as source text,
     its synchronous twin with exactly the async machinery removed (`async`, `await`, the `_async` suffix of the
-    methods it calls, `__getitem_async__`), or differs from it in one of the reviewed, behaviour-preserving
-    ways listed in `JP.Async.reviewedTwinDiffs`; the helpers of the asynchronous paths are pinned. Together
-    with `async_eq_sync` (the same evaluation program gives the same result run synchronously or
-    asynchronously) this is what makes the asynchronous API compute what the synchronous one computes.
-    Editing one twin without the other breaks this `decide`. -/
+    methods it calls, `__getitem_async__`; `for v in e: yield v` read as `yield from e`) - except the sixteen listed in
+    `JP.Async.inherentlyDifferentTwins`, about whose text nothing is claimed (they are tied by the correspondence run,
+    which is widened when their difference is not the one that was read). Together with `async_eq_sync` (the same
+    evaluation program gives the same result run synchronously or asynchronously) this is what makes the asynchronous
+    API compute what the synchronous one computes. Editing one twin without the other breaks this `decide`; editing
+    both alike does not. -/
 theorem twins_ok : twinsOK Generated.asyncTwins = true := by decide
 
 theorem run_bind {α β} (m : Co α) (f : α → Co β) : (m.bind f).run = (f m.run).run := by
